@@ -415,6 +415,21 @@ def _slots(x, size):
 CCD_WITNESS_TOL = 5e-3
 
 
+def _witness_ill_conditioned(mjm, r, adr):
+  """MuJoCo's testimony that a fromto witness is not unique: it moves by >0.02 when every dof moves by ~1e-4."""
+  import mujoco
+
+  dq = 1e-4 * np.array([(1.0, -0.7, 0.45, -0.85, 0.6)[k % 5] for k in range(mjm.nv)])
+  for sign in (1.0, -1.0):
+    d2 = mujoco.MjData(mjm)
+    d2.qpos[:] = r.qpos
+    mujoco.mj_integratePos(mjm, d2.qpos, sign * dq, 1.0)
+    mujoco.mj_forward(mjm, d2)
+    if np.max(np.abs(d2.sensordata[adr : adr + 6] - r.sensordata[adr : adr + 6])) > 0.02:
+      return True
+  return False
+
+
 def _analytic_pair(mjm, i):
   """True if every geom pair the distance sensor can select is handled in closed form by both engines."""
   import mujoco
@@ -499,6 +514,7 @@ def execute(scn):
   active = False
   seen = []
   ncon_seen = 0
+  illcond = 0
   for which in (0, 1, 2):
     pair = (refs[which], refs[(which + 1) % 3])
     if any(util.mj_warnings(r) for r in pair):
@@ -539,6 +555,13 @@ def execute(scn):
         tol = "solver" if solver else "f32dyn"
         if names[i] in ("GEOMNORMAL", "GEOMFROMTO") and not _analytic_pair(mjm, i):
           tol = CCD_WITNESS_TOL
+        if names[i] == "GEOMFROMTO" and np.any(want != 0) and _witness_ill_conditioned(mjm, r, a):
+          # flat optimum (e.g. cylinder axis parallel to a plane): MuJoCo's own witness jumps under a 1e-4 perturbation,
+          # so only the segment's length and direction are determined
+          illcond += 1
+          seg_w, seg_g = want[3:] - want[:3], got[3:] - got[:3]
+          c.close(pre + f"sensor{i}:GEOMFROMTO(segment)", seg_g, seg_w, tol, vkey=vk)
+          continue
         c.close(pre + f"sensor{i}:{names[i]}", got, want, tol, scale=scale, vkey=vk)
     if ns:
       seen.append(np.array(refs[which].sensordata))
@@ -552,7 +575,7 @@ def execute(scn):
       mjw.sensor_acc(m, d)
       c.bits("staged:sensordata", d.sensordata.numpy(), got_all.astype(np.float32), vkey="staged_vs_forward")
   varies = (len(seen) > 1 and any(not np.array_equal(seen[0], s) for s in seen[1:])) or not ns
-  info = dict(nsensor=int(ns), nsensordata=int(mjm.nsensordata), ncon=int(ncon_seen), checked=c.nchecked, maxrel=float(f"{c.maxrel:.3g}"))
+  info = dict(nsensor=int(ns), nsensordata=int(mjm.nsensordata), ncon=int(ncon_seen), illcond=illcond, checked=c.nchecked, maxrel=float(f"{c.maxrel:.3g}"))
   return c.result(nontrivial=active, key=util.sha(scn), info=info)
 
 
